@@ -70,7 +70,6 @@ fn check_entity_components(world: &World, result: &mut Vec<Message>) -> Result<(
                 .components()
                 .get_info(c_id)
                 .ok_or("component not found")?;
-            let type_name = c_info.name();
             let registration = registry
                 .get(c_info.type_id().ok_or("not registered")?)
                 .ok_or("not registered")?;
@@ -86,7 +85,8 @@ fn check_entity_components(world: &World, result: &mut Vec<Message>) -> Result<(
                         .reflect_type_path()
                         .to_string()
                 } else {
-                    type_name.to_string()
+                    // receivers resolve a component by its reflection type path
+                    component.reflect_type_path().to_string()
                 };
                 let component = if component.type_id() == TypeId::of::<SkinnedMesh>() {
                     debug!("Initial sync: Converting SkinnedMesh to SkinnedMeshSyncMapper");
